@@ -39,7 +39,7 @@ TNAME = {"id": "mpq", "ceil": "mpz", "range:-126:126": "int8", "dbl": "double"}
 N_ARGS = {"refine": 4, "addc": 4, "aff": 4, "gaff": 5, "baff": 6, "unc": 1, "oaff": 4, "apre": 4, "gapre": 5}
 # stage 5 (harness section `stage 5`); octagon codes = "o" + code
 _N5 = {"addc": 4, "refine": 4, "apre": 4, "refv": 5, "gaff": 5, "gapre": 5, "gaffl": 5, "gaprel": 5, "baff": 6, "unc": 1,
-       "embed": 1, "project": 1, "rmdims": 1, "rmhi": 1, "mapdims": 1, "meet": 2, "join": 2, "diff": 2, "tel": 2,
+       "embed": 1, "project": 1, "rmdims": 1, "rmhi": 1, "mapdims": 1, "meet": 2, "join": 2, "diff": 4, "tel": 2,
        "expand": 2, "fold": 2, "concat": 3}
 _NAME5 = {"addc": "add_constraint", "refine": "refine_no_check", "refv": "refine(var)", "gaff": "generalized_affine_image(var)",
           "baff": "bounded_affine_image", "apre": "affine_preimage", "gapre": "generalized_affine_preimage(var)",
